@@ -556,6 +556,44 @@ impl<S: AnyScan> Sys for Transp<S> {
                 }
             }
         }
+        // the same with the clock advanced first (polling scanner): a non-contributing message
+        // must leave the scanner equal to its copy however long a value has been pending
+        if S::HAS_POLL {
+            #[cfg(feature = "std")]
+            {
+                let tt = if self.timeout == u64::MAX { 5 * TICK } else { self.timeout };
+                let mut offsets = vec![1u64, tt, tt + 1];
+                offsets.extend_from_slice(&crate::poll::hostile_ticks(tt / 2));
+                for (k, e) in self.msgs.iter().enumerate() {
+                    if k % 97 != 0 {
+                        continue;
+                    }
+                    if let Ev::Msg(a, b, c) = e {
+                        for off in &offsets {
+                            set_clock(self.now + off);
+                            let mut copy = self.s;
+                            let o = copy.feed_m(&raw(*a, *b, *c));
+                            n += 1;
+                            if o != Some(S::empty()) || copy != self.s {
+                                crate::viol!(
+                                    rep,
+                                    format!("C16:{}:not-transparent-after-waiting", S::NAME),
+                                    format!("non-contributing message {} fed {} ns later returned {:?}; state changed: {}", e.render(), off, o, copy != self.s),
+                                    hj::<S>(self.timeout, &|| {
+                                        let mut p = path();
+                                        p.push(format!("tick {}", off));
+                                        p.push(e.render());
+                                        p
+                                    }, "nothing, equal state".into(), format!("{:?}", o))
+                                );
+                            }
+                        }
+                    }
+                }
+                set_clock(self.now);
+                rep.count("c16_polling_states_checked_with_clock_offsets", 1);
+            }
+        }
         rep.evaluations += n;
         rep.count(&format!("c16_{}_states_visited", S::NAME), 1);
         rep.count(&format!("c16_{}_noncontributing_feeds", S::NAME), n);
